@@ -110,6 +110,22 @@ func (b *BFT) addSigToVoteSet(vote *Message, voteSet *VoteSet) (err lib.ErrorI) 
 	return
 }
 
+// reportedLockIsValid() validates the proposal of a reported lock with the reported root-chain build height, the way
+// Replicas validate a re-proposal in the PROPOSE-VOTE phase, and leaves the state machine as it was.
+// The build height travels next to the certificate, not inside it (nor under the vote's signature): without this check
+// a single Replica could report the highest lock with a build height no Replica accepts and make every re-proposal fail
+func (b *BFT) reportedLockIsValid(vote *Message) bool {
+	err := lib.ErrInvalidRCBuildHeight()
+	if vote.RcBuildHeight >= b.CommitteeData.LastRootHeightUpdated {
+		_, err = b.ValidateProposal(vote.RcBuildHeight, vote.HighQc, &ByzantineEvidence{DSE: NewDSE(vote.LastDoubleSignEvidence)})
+		b.ResetFSM()
+	}
+	if err != nil {
+		b.log.Warnf("Replica %s submitted a highQC that cannot be re-proposed: %s", lib.BytesToTruncatedString(vote.Signature.PublicKey), err.Error())
+	}
+	return err == nil
+}
+
 // handleHighQCVDFAndEvidence() processes any 'highQC', 'vdf' or 'evidence' an ElectionVote from a Replica may have submitted
 func (b *BFT) handleHighQCVDFAndEvidence(vote *Message) lib.ErrorI {
 	// Replicas sending in highQC & evidences to proposer during election vote
@@ -134,7 +150,8 @@ func (b *BFT) handleHighQCVDFAndEvidence(vote *Message) lib.ErrorI {
 				return err
 			}
 			// save the highQC if it's higher than any the Leader currently is aware of
-			if b.HighQC == nil || b.HighQC.Header.Less(vote.HighQc.Header) {
+			// (and only if its proposal can be re-proposed with the root-chain build height the Replica reports)
+			if (b.HighQC == nil || b.HighQC.Header.Less(vote.HighQc.Header)) && b.reportedLockIsValid(vote) {
 				b.log.Infof("Replica %s submitted a highQC", lib.BytesToTruncatedString(vote.Signature.PublicKey))
 				b.HighQC = vote.HighQc
 				b.Block, b.Results = vote.Qc.Block, vote.Qc.Results
